@@ -152,23 +152,6 @@ def wf_ir(draw, c=None):
                 t["retry"]["delay"] = draw(st.integers(0, 3))
         if c["delay"] and draw(st.floats(0, 1)) < c["delay"]:
             t["delay"] = draw(st.integers(0, 5))
-    # a with-items task's result is the list of item results: conditions / publishes on result().key
-    # would be run-time expression errors (C11 owns those), so use status conditions there
-    for nm in names:
-        t = tasks[nm]
-        if t.get("with"):
-            if t["with"].get("keys"):
-                t.setdefault("input", {})["it"] = E(["item_key", "i"], lp(draw))
-            else:
-                t.setdefault("input", {})["it"] = E(["item"], lp(draw))
-            for tr in t["next"]:
-                if "res_" in repr(tr["when"]["e"]):
-                    tr["when"] = E(draw(st.sampled_from([["succeeded"], ["failed"], ["completed"]])), tr["when"]["lang"])
-                for pv in tr["publish"]:
-                    if lang.is_expr(pv[1]) and pv[1]["e"][0] == "res_key":
-                        pv[1] = E(["res"], pv[1]["lang"])
-            if t.get("retry") and t["retry"].get("when") and "res_" in repr(t["retry"]["when"]["e"]):
-                t["retry"]["when"] = E(["failed"], t["retry"]["when"]["lang"])
     if c["retry_cmd"]:
         for nm in names:
             if draw(st.integers(0, 7)) == 0 and not tasks[nm].get("retry"):
@@ -206,6 +189,23 @@ def wf_ir(draw, c=None):
         # exits may have given some task a second distinct inbound: joins there are fine ('all' or N
         # counts lk once); nothing else to repair.
 
+    # a with-items task's result is the list of item results: conditions / publishes on result().key
+    # would be run-time expression errors (C11 owns those), so use status conditions there
+    for nm in list(tasks):
+        t = tasks[nm]
+        if t.get("with"):
+            if t["with"].get("keys"):
+                t.setdefault("input", {})["it"] = E(["item_key", "i"], lp(draw))
+            else:
+                t.setdefault("input", {})["it"] = E(["item"], lp(draw))
+            for tr in t["next"]:
+                if "res_" in repr(tr["when"]["e"]):
+                    tr["when"] = E(draw(st.sampled_from([["succeeded"], ["failed"], ["completed"]])), tr["when"]["lang"])
+                for pv in tr["publish"]:
+                    if lang.is_expr(pv[1]) and pv[1]["e"][0] == "res_key":
+                        pv[1] = E(["res"], pv[1]["lang"])
+            if t.get("retry") and t["retry"].get("when") and "res_" in repr(t["retry"]["when"]["e"]):
+                t["retry"]["when"] = E(["failed"], t["retry"]["when"]["lang"])
     if c["output"]:
         ir["output"] = [[v + "_out", E(["ctx", v], lp(draw), draw(st.integers(0, 3)))] for v in POOL]
     return ir
@@ -229,15 +229,24 @@ def outcomes(draw, ir, p_fail=0.25, abend=True, per_attempt=3, fixed=False):
     return table
 
 
-def choices(max_size=60, hi=255):
-    return st.lists(st.integers(0, hi), max_size=max_size)
+@st.composite
+def choices(draw, max_size=60, hi=255):
+    # Hypothesis' lists are short on average; draw the minimum length explicitly so that long
+    # schedules (many decisions before the deterministic finish) are common
+    lo = draw(st.sampled_from([0, 0, 5, 10, 20, 30]))
+    lo = min(lo, max_size)
+    return draw(st.lists(st.integers(0, hi), min_size=lo, max_size=max_size))
 
 
 @st.composite
-def scenario(draw, c=None, flags=None, p_fail=None, abend=True, max_choices=60, fixed_outcomes=False):
+def scenario(draw, c=None, flags=None, p_fail=None, abend=True, max_choices=60, fixed_outcomes=False, controls=None):
     ir = draw(wf_ir(c))
     if p_fail is None:
         p_fail = draw(st.sampled_from([0.0, 0.05, 0.1, 0.2, 0.35]))
+    ctl = []
+    for kind, mx in (controls or {}).items():
+        for _ in range(draw(st.integers(0, mx))):
+            ctl.append([draw(st.integers(1, 30)), kind])
     return {
         "ir": ir,
         "inputs": {},
@@ -245,4 +254,5 @@ def scenario(draw, c=None, flags=None, p_fail=None, abend=True, max_choices=60, 
         "choices": draw(choices(max_choices)),
         "flags": dict(flags or {}),
         "style": draw(st.integers(0, 3)),
+        "controls": sorted(ctl),
     }
